@@ -104,6 +104,13 @@ func vfRecordMutants(r []byte, cidLen int, is13 bool, thorough bool, seed string
 			add(m, "bitflip:body")
 		}
 	}
+	// unified header: the same record re-framed without its length field (legal for the last record of a datagram).
+	// The header as sent is part of the additional data, so the re-framed record is not authentic.
+	if r[0]&0xe0 == 0x20 && r[0]&0x04 != 0 && len(r) > hdrLen {
+		m := append([]byte{r[0] &^ 0x04}, r[1:hdrLen-2]...)
+		m = append(m, r[hdrLen:]...)
+		add(m, "unified-header:length-field-removed")
+	}
 	// truncation at every length (stride for big records), extension inside the record
 	step := 1
 	if len(r) > 400 && !thorough {
@@ -244,6 +251,18 @@ func vfC05Run(t *testing.T, res *vfResult, c vfC05Case) {
 		return
 	}
 	synctest.Wait()
+	if len(held) == 1 && strings.Contains(c.Suite.Name, "CBC") && c.Size%2 == 0 && c.Size <= 4000 {
+		// the same payload as a peer would send it that pads generously (RFC 5246 allows up to 255 padding bytes; this
+		// library pads minimally): sealed with the sender's own keys, 251 bytes of padding
+		if tk, terr := vfNewToolkit(p); terr == nil {
+			tk.padLen = 251
+			ep, first := tk.reserve(sender.Name, 1)
+			if rec, serr := tk.Seal(sender.Name, ep, first, 23, payload, r.Uint64()); serr == nil {
+				held[0] = rec
+				res.Count("cbc_records_with_long_padding", 1)
+			}
+		}
+	}
 	if len(held) != 1 {
 		res.Count("unexpected_record_count", 1)
 		p.Close()
